@@ -2,7 +2,7 @@
 
 PROP_MODULES = {
     'C03': ['contracts.builders', 'contracts.shared_grid', 'contracts.c03_grid'],
-    'C04': ['contracts.builders', 'contracts.shared_grid', 'contracts.c03_grid', 'contracts.c04_meta', 'contracts.c08_creator'],
+    'C04': ['contracts.builders', 'contracts.shared_grid', 'contracts.c03_grid', 'contracts.c04_meta', 'contracts.c08_creator', 'contracts.c17_upstream', 'contracts.c01_georef'],
     'C02': ['contracts.builders', 'contracts.shared_grid', 'contracts.c03_grid', 'contracts.c04_meta', 'contracts.c16_limits', 'contracts.c02_addresses'],
     'C20': ['contracts.builders', 'contracts.shared_grid', 'contracts.c03_grid', 'contracts.c04_meta', 'contracts.c08_creator', 'contracts.c13_expiry', 'contracts.c16_limits', 'contracts.c20_conditional'],
     'C17': ['contracts.builders', 'contracts.shared_grid', 'contracts.c03_grid', 'contracts.c17_upstream'],
@@ -12,6 +12,7 @@ PROP_MODULES = {
     'C06': ['contracts.builders', 'contracts.shared_grid', 'contracts.c05_compact', 'contracts.c06_atomic'],
     'C09': ['contracts.builders', 'contracts.shared_grid', 'contracts.c03_grid', 'contracts.c04_meta', 'contracts.c05_compact', 'contracts.c16_limits', 'contracts.c09_paths'],
     'C18': ['contracts.builders', 'contracts.c18_errors'],
+    'C01': ['contracts.builders', 'contracts.shared_grid', 'contracts.c03_grid', 'contracts.c04_meta', 'contracts.c17_upstream', 'contracts.c01_georef'],
     'C12': ['contracts.builders', 'contracts.shared_grid', 'contracts.c03_grid', 'contracts.c04_meta', 'contracts.c08_creator', 'contracts.c11_seed', 'contracts.c13_expiry', 'contracts.c12_cleanup'],
     'C11': ['contracts.builders', 'contracts.shared_grid', 'contracts.c03_grid', 'contracts.c04_meta', 'contracts.c11_seed'],
     'C15': ['contracts.builders', 'contracts.c15_async'],
@@ -43,6 +44,16 @@ NOT_APPLICABLE = {
 }
 
 MANIFEST_META = {
+    'C01': dict(
+        text='Proof of the placement arithmetic on the real code (reals, all inputs): the affected-tile block and its bbox '
+             '(C03 contracts), mosaic lemma (tile m of the row-major list is pasted at its ground offset), TileMerger offsets '
+             'and size, TileSplitter.get_tile keeps every pixel at its position relative to the crop coordinate in both '
+             'branches (crop origin - paste position = crop coordinate), bbox_position_in_image clips exactly and truncates '
+             'offsets by < 1 px, InfoQuery.coord is the affine pre-image of the clicked pixel (y flipped) with round-trip lemma, '
+             'and the feature-info transfer for unsupported SRS reprojects exactly the ground point of the clicked pixel '
+             '(request width AND height).',
+        note='resampling and reprojection error budgets (transform_meshes, PIL, proj), axis-order switching, _query_req and the '
+             'ImageTransformer dispatch are not yet under contract; floats as reals; end-to-end WSGI pixels are outside'),
     'C18': dict(
         text='Narrow slice, proved on the real code: in XML/OWS exception handlers the template variable `exception` is exactly '
              'html.escape(request_error.msg) and the response body is the rendered template; PlainExceptionHandler (raw message) '
